@@ -21,6 +21,8 @@ import (
 	"github.com/mdzio/go-mqtt/service"
 )
 
+var clientSeq int
+
 type clientCore struct {
 	ln    net.Listener
 	cln   *service.Client
@@ -425,7 +427,10 @@ func (c *clientCore) handle(ws []string) string {
 		cln := &service.Client{}
 		msg := message.NewConnectMessage()
 		msg.SetVersion(4)
-		msg.SetClientID([]byte("subject"))
+		// a fresh client id per connection: Client.Connect registers a topics provider under the
+		// client id and panics if a previous client with that id has not been torn down completely
+		clientSeq++
+		msg.SetClientID([]byte(fmt.Sprintf("subject%d", clientSeq)))
 		msg.SetCleanSession(true)
 		msg.SetKeepAlive(300)
 		err = cln.Connect("tcp://"+ln.Addr().String(), msg)
